@@ -81,7 +81,8 @@ StepCrash == Ev.ev = "Crash" /\ Crash
 \* the re-opened stream replayed from the frontier, the acks and publishes that had RETURNED before
 \* the kill and the last cursor seen before it.  TLC evaluates the properties on that data:
 \*   C15  replayed = stored operations of the topic with a body and seq above the persisted cursor
-\*   C15  a completed ack is durable (covered by the cursor), a completed publish is stored
+\*   C15  a completed ack of a still stored operation is durable (covered by the cursor), a completed
+\*        publish is stored (or was pruned by a later operation)
 \*   C07  the persisted cursor did not move backwards across the kill
 \* and continues from that state (crash-atomicity invariants StoredIsAssociated, LogsContiguous).
 StepFreeRestart ==
@@ -92,7 +93,9 @@ StepFreeRestart ==
            A == SetOfOps(Ev.acked_ok)
            prevc == CursorOf(Ev.prev_cursor)
        IN /\ R = {o \in S : o.tp = T /\ o.body /\ o.seq > c[o.a]}
-          /\ \A o \in A : o.tp = T => c[o.a] >= o.seq
+          \* (StreamSubscription::ack of an operation that was pruned meanwhile returns Ok without
+          \* acknowledging anything, stream.rs:752-757 -- such an operation cannot be replayed either)
+          /\ \A o \in A : (o.tp = T /\ o \in S) => c[o.a] >= o.seq
           \* a completed publish is stored, unless a later operation with the prune flag removed it
           /\ \A k \in 1..Len(Ev.published) :
                 \E o \in S : o.a = Me /\ o.tp = T /\ (o.seq = Ev.published[k] \/ (o.prune /\ o.seq > Ev.published[k]))
